@@ -179,7 +179,7 @@ def display_bytes(ex, ref, ty='', opts=None, kind='display'):
                 r = ex.call_body(b, [Ptr(Cell(v)), Ptr(Cell(f))])
                 return f.sink
         from .models import values_eq
-        m = ex.find_model('display:' + v.ty.split('::')[-1])
+        m = ex.find_model('display:' + v.ty) or ex.find_model('display:' + v.ty.split('::')[-1])
         if m is not None: return pad(m(ex, v, opts), opts)
     raise Lossy()
 
@@ -328,6 +328,7 @@ def m_io_error_from(ex, site, a):
 
 def error_text(ex, e):
     e = deref(ex, e)
+    if len(e.fields) < 2: raise Lossy()
     p = e.fields[1]
     if isinstance(p, (VecV, SliceRef)): return list(items_of(ex, p))
     return [ord(c) for c in '<io error %s>' % e.fields[0].ty]
